@@ -5,6 +5,11 @@ as handlers return without blocking, in arrival order.  A handler or callback ma
 the same connection, to any nesting depth, without stalling the connection: processing of later incoming messages
 (including the awaited response) continues while it waits."
 
+Beyond the wording, `judge` also checks the order of *dispatch* in every history (clause `dispatch-order`): handlers and
+observation callbacks are entered in arrival order whether or not handlers block — the receive queue is first-in first-out and
+a message is handed to its handler by whoever took it (`Props.C11.dispatch_fifo` for the model) — up to one position, because
+two loops that take at the same instant log their entries concurrently.
+
 A *history* is the sequence of things an observer sees: requests the peer sent (with the kind of handler they trigger),
 answers the peer sent to nested calls, handler entries and exits, returns of nested calls, the close of the connection.
 -/
